@@ -91,8 +91,8 @@ func isReadFile(f experimentalsys.File) bool { _, ok := f.(*readFile); return ok
 //@   ensures 0 <= n && n <= len(buf)
 //@   modifies elems(buf)
 //@ iface (f experimentalsys.File) Pread(buf []byte, off int64) (n int, errno experimentalsys.Errno)
-//@   ensures 0 <= n && n <= len(buf)
-//@   modifies elems(buf)
+//@   ensures 0 <= n && n <= len(buf) && verif_ghost_int("preadOff") == int(off)
+//@   modifies elems(buf), ghost("preadOff")
 // (Seek additionally records what it was asked and what it answered in ghost registers, so that the
 // WASI glue can be specified: C16)
 //@ iface (f experimentalsys.File) Seek(offset int64, whence int) (newOffset int64, errno experimentalsys.Errno)
@@ -105,8 +105,8 @@ func isReadFile(f experimentalsys.File) bool { _, ok := f.(*readFile); return ok
 //@   ensures fsMutations() == old(fsMutations()) + 1 && 0 <= n && n <= len(buf)
 //@   modifies ghost("fsMutations")
 //@ iface (f experimentalsys.File) Pwrite(buf []byte, off int64) (n int, errno experimentalsys.Errno)
-//@   ensures fsMutations() == old(fsMutations()) + 1 && 0 <= n && n <= len(buf)
-//@   modifies ghost("fsMutations")
+//@   ensures fsMutations() == old(fsMutations()) + 1 && 0 <= n && n <= len(buf) && verif_ghost_int("pwriteOff") == int(off)
+//@   modifies ghost("fsMutations"), ghost("pwriteOff")
 //@ iface (f experimentalsys.File) Truncate(size int64) experimentalsys.Errno
 //@   ensures fsMutations() == old(fsMutations()) + 1 && verif_ghost_int("truncSize") == int(size) && verif_ghost_int("truncCalls") == old(verif_ghost_int("truncCalls")) + 1
 //@   modifies ghost("fsMutations"), ghost("truncSize"), ghost("truncCalls")
